@@ -27,7 +27,7 @@ def plan(tier, seed):
     n = 4 if tier == "quick" else 16
     specs = [{"tier": tier, "part": "bfs", "slice": [i, n], "seed": env.shard_seed(i), "depth": 2,
               "sample": 500 if tier == "quick" else None} for i in range(n)]
-    specs += [{"tier": tier, "part": "random", "seed": env.shard_seed(50 + i), "n_seq": 250 if tier == "quick" else 8000} for i in range(n)]
+    specs += [{"tier": tier, "part": "random", "seed": env.shard_seed(50 + i), "n_seq": 250 if tier == "quick" else 8000, "n_wide": 2 if tier == "quick" else 12} for i in range(n)]
     specs += [{"tier": tier, "part": "embedded", "seed": env.shard_seed(90 + i), "n_seq": 60 if tier == "quick" else 800} for i in range(2 if tier == "quick" else 8)]
     return specs
 
@@ -243,11 +243,45 @@ def run_random(res, spec_, rng):
                 history.append("save")
                 res.count("saves_between_requests")
         res.hist("graph_shapes", shape)
+        if rng.random() < 0.5:
+            # the version stamp of the file is the writer's business; links persist whichever stamp it carries
+            p.sunvox_version = rng.choice([(1, 7, 0, 0), (1, 9, 2, 0), (1, 9, 5, 2), (1, 9, 6, 0), (1, 9, 6, 1), (2, 0, 0, 0), (2, 1, 2, 1)])
+            history.append(["VERS", list(p.sunvox_version)])
+            res.hist("version_stamps", ".".join(map(str, p.sunvox_version)))
         holes = sum(1 for m in p.modules if m for x in list(m.in_links)[:-1] + list(m.out_links)[:-1] if x == -1)
         res.count("interior_freed_slots", holes)
         check_state(res, p, rng, {"origin": "random", "n": n, "ops": history})
         if s == 0:
             res.sample({"n": n, "ops[from,to,disconnect]": history[:12], "tables": [None if t is None else [list(x) for x in t] for t in tables(p)]})
+
+
+def run_wide(res, spec_, rng):
+    """Very wide fan-out / fan-in: one module with several hundred links, some of them unplugged again, so that slot
+    numbers beyond 255 occur on both sides."""
+    import rv.api as api
+    for s in range(spec_.get("n_wide", 0)):
+        p = api.Project()
+        width = rng.randint(257, 330)
+        hub = p.new_module(api.m.Amplifier)
+        sink = p.new_module(api.m.Amplifier)
+        others = [p.new_module(api.m.Amplifier) for _ in range(width)]
+        direction = "out" if s % 2 == 0 else "in"
+        for o in others:
+            if direction == "out":
+                p.connect(hub, o)
+                p.connect(o, sink)
+            else:
+                p.connect(o, hub)
+                p.connect(sink, o)
+        for o in rng.sample(others, rng.randint(0, 40)):
+            if direction == "out":
+                p.connect(hub, ~o)
+            else:
+                p.connect(o, ~hub)
+        if others[-1].index in (hub.out_links if direction == "out" else hub.in_links):
+            res.count("wide_states_with_slot_over_255")
+        res.hist("graph_shapes", f"wide-{direction}")
+        check_state(res, p, rng, {"origin": "wide", "width": width, "direction": direction})
 
 
 def run_embedded(res, spec_, rng):
@@ -296,6 +330,8 @@ def run_embedded(res, spec_, rng):
 
 
 def run_shard(spec_, res):
+    if spec_.get("part") == "random" and spec_.get("n_wide"):
+        run_wide(res, spec_, random.Random(spec_["seed"] + 77))
     rng = random.Random(spec_["seed"])
     monitors.install()
     if spec_["part"] == "bfs":
